@@ -118,6 +118,7 @@ func recoverFunc(runInfo *runInfoStruct) {
 	if recoverInterface == nil {
 		return
 	}
+	runInfo.rv = nilValue
 	switch value := recoverInterface.(type) {
 	case *Error:
 		runInfo.err = value
